@@ -16,7 +16,14 @@ Three ties between the Coq models (Model/Pool.v, Model/RunEffects.v) and the rea
     (fail = Assign) and Pool.run_stage_desc; the property's own predicate evaluated by the
     extracted RunEffects.check_trace_sx on the OBSERVED effects.
  P  other fail points of run_mapping (marker cache, CSV, summary) validate the
-    try/except/finally model beyond the assignment step.
+    try/except/finally model beyond the assignment step; so do failures INSIDE `finally`
+    (log_path / output_path an existing directory, HDF5 path in a missing directory), a query file
+    that is absent or a directory (the copy step AND read_uns_from_h5ad in `finally` raise) and a
+    real failing worker TOGETHER with an unwritable log / JSON / HDF5 path (the exception of
+    `finally` replaces the inspector's; F34 when the log cannot be written).  Where the exception
+    the caller saw was raised is read off its traceback against the ast of the real run_mapping.
+ X' what `raises` means: forked workers raising RuntimeError / SystemExit(None | k | text) /
+    KeyboardInterrupt against ExitCode.raise_exit_code and is_exception (tag 1407).
  X  exit codes: real forked workers that return / raise / os._exit(k) / are killed by a signal;
     multiprocessing.Process.exitcode compared with Pool.exit_code_of (os._exit(256) -> 0).
  In V, for the selection scheduler, the locals started_parents / completed_parents / process_dict of the
